@@ -143,7 +143,7 @@ theorem lineStep_total (w : World) (sep : UInt8) (line : Bytes) (sect : Option B
     · exact ⟨_, rfl⟩
     · obtain ⟨r, h⟩ := parsestrLoop_total w t maxExpansions
         (Str.trim (Encode.makeword (if isHeader (Str.trim line) = true then
-          sep :: Str.trim (List.drop 1 (Str.trim line)).dropLast else Str.trim line) sep).2)
+          (if sep = 0 then [] else sep :: Str.trim (List.drop 1 (Str.trim line)).dropLast) else Str.trim line) sep).2)
       unfold parsestr
       rw [h]
       cases r with
